@@ -1043,6 +1043,8 @@ class Interp:
         ctx = self.ctx
         if isinstance(k, Choice) and isinstance(o, dict):
             k = ops.resolve_choice(ctx, k)
+        if id(o) in ctx.shared_ids:
+            self.note_write(o, None)          # a write to shared state is reported even if the key is symbolic
         if isinstance(o, dict):
             if is_concrete(k):
                 self.note_write(o, k)
